@@ -50,7 +50,8 @@ def run_cases(ctx, kind, seeds, label):
     nproc = 16
     chunks = [(kind, seeds[i::nproc]) for i in range(nproc) if seeds[i::nproc]]
     with mp.get_context('fork').Pool(len(chunks)) as pool:
-        results = [r for part in pool.map(_worker, chunks) for r in part]
+        from vlib import cov
+        results = [r for part in cov.pmap(ctx, pool, _worker, chunks) for r in part]
     results.sort(key=lambda r: r['seed'])
     good = [r for r in results if 'crash' not in r]
     per_file = 60 if kind == 'a' else 40
@@ -201,10 +202,13 @@ def correspondence(ctx):
         'lagging holder has not released the lock between the two replica positions',
     ]
     ctx.partial += [
-        'C16 through the sim cluster (tryAcquire / release / prolongation from several nodes with commit delays and '
-        'partitions under the Raft harness) is not covered: the Raft simulation harness does not exist yet; the cluster is '
-        'played by harness/locks.py (arbitrary commit order, lag, loss) and the per-client FIFO proviso of '
-        'C16_mutual_exclusion is not discharged against syncobj.py',
+        'through a replicated cluster the lock table runs on real SyncObj objects under the Raft simulation '
+        '(harness/cluster_batteries.py: compaction, snapshot catch-up of a lagging node, restart from a dump file; monitor: '
+        'replicas of the table equal at equal applied index, at most one holder per replica pair) - implementation under the '
+        'monitor only, the Raft model treats replicated calls abstractly; the client wrapper (tryAcquire / release / '
+        'prolongation threads) is played against harness/locks.py (arbitrary commit order, lag, loss), so the per-client '
+        'FIFO proviso of C16_mutual_exclusion is an assumption about how a client submits (one SyncObj, one queue), not a '
+        'theorem about syncobj.py',
         'candidate finding (reproduced on ReplLockManager with the fake cluster, see monitor.candidate_lost_late_release): '
         'the async late-acquire path issues its release fire-and-forget; if that command is lost the client that was told '
         'False keeps the lock and its prolongation thread refreshes it for ever',
